@@ -69,6 +69,18 @@ def main():
             first = rb.stdout.splitlines()[0] if rb.stdout else ""
             missing = [ln for ln in rb.stdout.splitlines() if ln.startswith("MISSING")]
             ok = all("test_convert_workers[auto-8]" in m for m in missing)
+            if not ok:
+                # under load a few stable tests are flaky (server start-up, time limits): re-run exactly those, alone
+                ids = []
+                for m in missing:
+                    if "test_convert_workers[auto-8]" in m:
+                        continue
+                    cls, name = m.replace("MISSING ", "").split("::", 1)
+                    ids.append(cls.replace(".", "/") + ".py::" + name)
+                rr = sh(["/venv/bin/python", "-m", "pytest", "-q", "-p", "no:cacheprovider", "--timeout=900", *ids], cwd=wt, env=env,
+                        timeout=3600)
+                result["baseline_rerun"] = rr.stdout[-300:]
+                ok = rr.returncode == 0
             result["baseline"] = first
             result["baseline_ok"] = ok
             result["baseline_missing"] = missing[:10]
